@@ -304,6 +304,65 @@ def presentText (tbl : Table) (now timeout maxNc stdLen : Nat) (nonce ncTxt : By
     | none => (tbl, .hdr)
     | some nci => present tbl now timeout maxNc stdLen nonce nci
 
+/-! ### the public entry points and what they hand to digest_auth_check_all -/
+
+/-- `MHD_digest_auth_check3`, `_check_digest3`, and the legacy `_check2`, `_check`,
+    `_check_digest2`, `_check_digest` -/
+inductive Api
+  | check3
+  | checkDigest3
+  | check2
+  | check
+  | checkDigest2
+  | checkDigest
+  deriving Repr, DecidableEq
+
+/-- the `(nonce_timeout, max_nc)` pair an entry point called with `(nonce_timeout, max_nc)`
+    passes on (the legacy ones have no `max_nc` parameter and pass 0 = daemon default) -/
+def Api.args : Api → Nat → Nat → Nat × Nat
+  | .check3, t, m => (t, m)                -- MHD_digest_auth_check3 → digest_auth_check_all (…, nonce_timeout, max_nc, …)
+  | .checkDigest3, t, m => (t, m)          -- MHD_digest_auth_check_digest3 → digest_auth_check_all (…, nonce_timeout, max_nc, …)
+  | .check2, t, _ => (t, 0)                -- MHD_digest_auth_check2 → MHD_digest_auth_check3 (…, nonce_timeout, 0, …)
+  | .check, t, _ => (t, 0)                 -- MHD_digest_auth_check → MHD_digest_auth_check2 (…, nonce_timeout, MD5)
+  | .checkDigest2, t, _ => (t, 0)          -- MHD_digest_auth_check_digest2 → MHD_digest_auth_check_digest3 (…, nonce_timeout, 0, …)
+  | .checkDigest, t, _ => (t, 0)           -- MHD_digest_auth_check_digest → MHD_digest_auth_check_digest2 (…, nonce_timeout, MD5)
+
+def Api.legacy : Api → Bool
+  | .check3 => false
+  | .checkDigest3 => false
+  | _ => true
+
+/-- what the application sees -/
+inductive ApiOut
+  | res (o : Out)
+  /-- `MHD_YES` -/
+  | yes
+  /-- `MHD_INVALID_NONCE` -/
+  | invalidNonce
+  /-- `MHD_NO` -/
+  | no
+  deriving Repr, DecidableEq
+
+/-- the legacy entry points fold the result: OK → MHD_YES, NONCE_STALE / NONCE_WRONG →
+    MHD_INVALID_NONCE, anything else → MHD_NO -/
+def Api.result (a : Api) (o : Out) : ApiOut :=
+  if a.legacy then
+    match o with
+    | .ok => .yes
+    | .stale => .invalidNonce
+    | .wrong => .invalidNonce
+    | _ => .no
+  else .res o
+
+/-- a presentation through entry point `a` -/
+def presentApi (a : Api) (tbl : Table) (now timeout maxNc stdLen : Nat) (nonce : Bytes) (nci : Nat) :
+    Table × Out :=
+  present tbl now (a.args timeout maxNc).1 (a.args timeout maxNc).2 stdLen nonce nci
+
+def presentTextApi (a : Api) (tbl : Table) (now timeout maxNc stdLen : Nat) (nonce ncTxt : Bytes) :
+    Table × Out :=
+  presentText tbl now (a.args timeout maxNc).1 (a.args timeout maxNc).2 stdLen nonce ncTxt
+
 /-! ### operation sequences -/
 
 inductive Op
